@@ -199,7 +199,7 @@ CLAIMS = {
 }
 
 TECHNIQUE = ("Lean 4 machine-checked proof over a model of the code; tie = translators (funfit.py, dataset tables, vector "
-             "arithmetic, the loops of the window strategies, the two-pointer scans, the effect order of the Weaver methods regenerated into Lean and proved equal to the model) + "
+             "arithmetic, the loops of the window strategies, the two-pointer scans, the effect order of the Weaver methods, the protocol of the dataset loader, the array helpers regenerated into Lean and proved equal to the model) + "
              "differential correspondence of the native model driver with /repo on generated inputs, memory layouts, "
              "object histories, thread schedules and interpreter settings")
 
@@ -219,6 +219,16 @@ def main():
         if pid not in CLAIMS or pid not in BUILT:
             continue
         ref, text, note = CLAIMS[pid]
+        if pid in ("C04", "C07", "C12", "C17"):
+            text += (" The array helpers (oversample_linspace / _piecewise_constant, extend_linspace / _constant, "
+                     "append_one_sample, process.repeat) are regenerated from their NumPy text by translator T8 into a "
+                     "vocabulary of NumPy primitives and proved equal to the model for all inputs on every run "
+                     "(TWV.Tie.ArrayHelpers).")
+        if pid in ("C18", "C19"):
+            text += (" The loader's protocol (cache test, staging directory inside the cache folder, bounded retry, checksum "
+                     "before parsing, writes only under the staging directory, one final rename into the slot) is regenerated "
+                     "from _base.py's AST as a table of events by translator T7 and the facts are decided on it on every run "
+                     "(TWV.Tie.LoaderProtocol).")
         if pid in ("C08", "C09", "C20"):
             text += (" The order of effects inside every Weaver method (assignments, calls, raises, warnings, asserts) is "
                      "regenerated from weaver.py's AST by translator T6 and compared with the expected table by `decide` on "
